@@ -371,6 +371,25 @@ def r_cumul(ctx):
         else:
             ctx.violation("R-CUMUL", where, "`size` unit workers",
                           "the cumulative worker is not expanded into one Worker per unit of size", first_line(ctx.project, cname))
+        # the unit workers carry the shares of the declared productivity and cost: element `position` of
+        # _distribute_p_over_n(self.productivity | self.cost, self.size), unchanged (that function checks itself that the shares
+        # add up to the declared total)
+        if ok:
+            Lw = items[0].loops[0]
+            for ev in r.events_of("new"):
+                for field, kwname, cls_ in (("productivity", "productivity", "Worker"), ("cost", "value", "ConstantFunction")):
+                    if ev.data["cls"] != cls_:
+                        continue
+                    got = dict(ev.data["kwargs"]).get(kwname)
+                    seq = sequence_at_position(norm(got), Lw) if isinstance(got, tuple) else None
+                    want_seq = ("call", "resource._distribute_p_over_n", (A(SELF, field), A(SELF, "size")), ())
+                    if seq is not None and norm(seq) == norm(want_seq):
+                        ctx.ok("R-CUMUL", f"{where}: unit {field} = its share of the declared {field}")
+                    else:
+                        ctx.violation("R-CUMUL", where, f"unit workers carry the shares of the declared {field}",
+                                      f"a unit worker gets {field} {show(got)[:160] if isinstance(got, tuple) else got}, which is not the "
+                                      f"element at its position of _distribute_p_over_n(self.{field}, self.size): the units no longer "
+                                      f"add up to the declared {field}", first_line(ctx.project, cname))
         # each unit worker registers in problem.workers (the capacity loop ranges over that registry)
         regs = [ev for ev in r.events_of("store") if "workers" in show(ev.data["container"]) and ev.loops
                 and ev.data["container"] == A(("glob", "processscheduler.base.active_problem"), "workers")]
